@@ -324,8 +324,7 @@ def lattice(thorough):
             cfg_ = dict({"integrator": integ, "o": o, "system": sysn}, **extra)
             L.append(cfg_)
     for integ in ("leapfrog", "ias15", "whfast"):
-        if integ != "whfast":          # WHFast segfaults when an EMPTY simulation is stepped (reported; not a persistence matter)
-            add(integrator=integ, o={}, system="n0")
+        add(integrator=integ, o={}, system="n0")      # (WHFast/SABA used to segfault on an empty simulation: fixed by f0ce3d6)
         add(integrator=integ, o={}, system="n1")
         add(integrator=integ, o={}, system="big130")
     add(integrator="leapfrog", o={}, system="big1030")
